@@ -429,16 +429,8 @@ def leap_shift(ctx, facts):
     L = {}
 
     def c_leap(I_, st, args, dty, site):
-        outs = []
-        for b in (0, 1):
-            s = st.clone()
-            if 'v' not in L:
-                L['v'] = D.sym_vid(0, 1, 'is_leap')
-            cur = D.get_iv(s, L['v']) if L['v'] in s.iv else (0, 1)
-            if cur[0] <= b <= cur[1]:
-                s.iv[L['v']] = (b, b)
-                outs.append((s, const_int(b, 'bool')))
-        return outs
+        # the leap status of the year is fixed per run (below), whether and when the code asks for it
+        return [(st.clone(), const_int(L['fixed'], 'bool'))]
 
     def c_leaps(I_, st, args, dty, site):
         s = st.clone()
@@ -460,16 +452,19 @@ def leap_shift(ctx, facts):
 
     def doy(I_, st, ty):
         return I_.top(st, ty, 'n', lo=1, hi=365)
-    N.run(YDD, overrides={'ignore_leap@3': ign, 'doy@2': doy}, variants=('fixed',))
     groups = {}
-    for args, st0, outs in N.results.get(YDD, []):
+    for fixed in (0, 1):
+      L['fixed'] = fixed
+      label = f'{YDD}[leap={fixed}]'
+      N.run(YDD, label=label, overrides={'ignore_leap@3': ign, 'doy@2': doy}, variants=('fixed',))
+      for args, st0, outs in N.results.get(label, []):
         year, n = args[0][1], args[1][1]
         for st, rv in outs:
             if rv[0] != 'e' or 0 not in rv[2] or 1 in rv[2]:
                 continue
             r = rv[2][0][0]
             a = D.aff_of(r[1])
-            leap = D.get_iv(st, L['v']) if 'v' in L and L['v'] in st.iv else None
+            leap = (fixed, fixed)
             neg = D.get_iv(st, year)[1] < 0
             groups.setdefault((neg, leap), []).append((a.co.get(n, 0), a.c0 - (366 if (neg and leap == (1, 1)) else 365 if neg else 0) * 0, D.get_iv(st, n), a))
     good = True
@@ -644,6 +639,17 @@ def weekday_lists(ctx, facts):
         st.trace = st.trace + (('push', args[1]),)
         return m_push(I_, st, args, dty, site)
     I.models['std::vec::Vec::<T, A>::push'] = push
+    m_collect = I.find_model('std::iter::Iterator::collect')
+
+    def collect(I_, st, args, dty, site):
+        # a list built by collecting a known sequence: its elements are the pushes
+        from ..models import as_iter
+        it = as_iter(I_, st, args[0])
+        if it is not None and it[0] == 'it' and it[1] == 'seq' and site.get('fn', '').startswith(WIM):
+            for e in it[2][it[3]:]:
+                st.trace = st.trace + (('push', e),)
+        return m_collect(I_, st, args, dty, site)
+    I.models['std::iter::Iterator::collect'] = collect
     I.return_partition[WIM] = lambda I_, st, v: id(st)
     I.unroll_for[WIM] = 9
     for ln in (28, 29, 30, 31):
